@@ -16,6 +16,7 @@
                       _classImplements_ordered           -> ordered
                       Declaration._add_interfaces_to_cls -> build_bases
                       Provides (factory + InstanceDeclarations weak cache) -> provides_factory, gc
+                      Provides.changed (leaves the cache when its class changes) -> notify, reaches
                       directlyProvides / alsoProvides / directlyProvidedBy -> directly_provides, also_provides
                       directlyProvides(cls, ..) / provider / ClassProvides.__init__ -> class_provides, alloc_cprov
                       Specification.interfaces()         -> sref_interfaces / decl_interfaces
@@ -281,13 +282,33 @@ Definition spec_isOrExtends (fuel : nat) (w : world) (st : state) (c i : nat) : 
 
 (* ------------------------------------------------------------------ class declarations *)
 
+(* does the specification of class d depend on that of class c (through the implementedBy(base)
+   entries of __bases__, which is how Specification.subscribe links them)? *)
+Fixpoint reaches (fuel : nat) (w : world) (st : state) (d c : nat) : bool :=
+  match fuel with
+  | 0 => Nat.eqb d c
+  | S f =>
+      Nat.eqb d c
+      || existsb (fun r => match r with RC b => reaches f w st b c | _ => false end)
+                 (im_bases (get_impl w st d))
+  end.
+
+(* Assigning spec.__bases__ of class c calls changed(), which reaches every dependent.
+   Provides.changed (declarations.py, "stop sharing an instance declaration once its class's
+   declarations change"): a Provides whose class depends on c and that is the cached value for its
+   arguments removes itself from InstanceDeclarations. *)
+Definition notify (fuel : nat) (w : world) (st : state) (c : nat) : state :=
+  mkState (st_impl st) (st_cprov_of st) (st_cprovs st) (st_provs st)
+          (filter (fun kp : ckey * nat => negb (reaches fuel w st (fst (fst kp)) c)) (st_cache st))
+          (st_insts st).
+
 (* _classImplements_ordered(spec of c, before, after) *)
 Definition ordered (fuel : nat) (w : world) (st : state) (c : nat) (before after : list nat) : state :=
   let r := get_impl w st c in
   let keep x := negb (spec_isOrExtends fuel w st c x) in
   let nd := dedup (filter keep before ++ im_declared r ++ filter keep after) in
   let inherited := match im_inherit r with Some k => map RC (cbases w k) | None => [] end in
-  set_impl st c (mkImpl (im_inherit r) (im_cls r) nd (map RI nd ++ inherited)).
+  notify fuel w (set_impl st c (mkImpl (im_inherit r) (im_cls r) nd (map RI nd ++ inherited))) c.
 
 Definition class_implements (fuel : nat) (w : world) (st : state) (c : nat) (is : list nat) : state :=
   let st := implementedBy fuel w st c in
@@ -299,7 +320,7 @@ Definition class_implements_only (fuel : nat) (w : world) (st : state) (c : nat)
   let st := implementedBy fuel w st c in
   let r := get_impl w st c in
   (* spec.declared = (); spec.inherit = None; spec.__bases__ = ()  -- _implements_cls is kept *)
-  let st := set_impl st c (mkImpl None (im_cls r) [] []) in
+  let st := notify fuel w (set_impl st c (mkImpl None (im_cls r) [] [])) c in
   ordered fuel w st c is [].
 
 Definition class_implements_first (fuel : nat) (w : world) (st : state) (c i : nat) : state :=
